@@ -217,9 +217,23 @@ func checkC10(c *harness.Check) {
 		"ucinewgame",
 		"position fen rnbqkbnr/pppppppp/8/8/8/8/PPPPPPPP/RNBQKBNR w KQkq - 4 3", // the very FEN the knight shuffle above reaches
 		"position fen 2kr3r/8/8/8/8/8/8/R4RK1 w - - 2 2",                        // the very FEN `F moves e1g1 e8c8` reaches
+		"position fen 8/P6k/8/8/8/8/2p5/K7 w - - 3 40 moves a7a8q",              // move tokens of five characters (promotions), last in the list ...
+		"position fen 8/P6k/8/8/8/8/2p5/K7 w - - 3 40 moves a7a8q c2c1n a1b2",   // ... and inside it
+		"position fen 8/P6k/8/8/8/8/2p5/K7 w - - 3 40",
+	}
+	for _, l := range alphabet {
+		if strings.HasPrefix(l, "position") && gameOfLine(l) == nil {
+			fmt.Fprintln(os.Stderr, "HARNESS-ERROR: the C10 alphabet contains a line that does not describe a legal game:", l)
+			os.Exit(2)
+		}
+	}
+	// the lines among which words of full length are formed; shorter words use the whole alphabet
+	core := map[string]bool{}
+	for _, i := range []int{0, 1, 2, 5, 6, 9, 10, 11, 12, 16, 17, 19, 22, 23} {
+		core[alphabet[i]] = true
 	}
 	maxLen := c.Pick(4, 5)
-	c.Rule = fmt.Sprintf("all command words of length <= %d over an alphabet of %d lines built from two games: startpos with move lists that extend one another (incl. a knight shuffle that brings the start position back two and three times, and one that plays on after the third time; a line that plays on after the hundredth half-move), another first move, a FEN with move lists that extend one another (castling both sides), the same FEN with other clocks (a longer full-move number that makes one line a textual prefix of another, full-move number 0, a running half-move clock), two FENs that spell out exactly the position (and clocks) a moves line of the alphabet reaches, two FENs that differ only in the case of one letter, a line repeated with other white space between its tokens, and ucinewgame; verbatim repeats, shortenings and extensions all arise as words. Every line goes to a real uci.Driver followed by the isready/readyok hand-shake. Oracle after each word: driver alive; Engine.Position(), ply, clock, full moves, draw state equal the reference game of the LAST position command alone; full board snapshot equal to a fresh driver given only that command; every continuation to depth 2 on a fork reports draws exactly where the reference game does (the repetition history is compared, not just the position). distinct_nontrivial = distinct (last command, previous command) pairs", maxLen, len(alphabet))
+	c.Rule = fmt.Sprintf("all command words of length < %d over an alphabet of %d lines (and of that length with a last line from a core of 14) built from three games: startpos with move lists that extend one another (incl. a knight shuffle that brings the start position back two and three times, and one that plays on after the third time; a line that plays on after the hundredth half-move), another first move, a FEN with move lists that extend one another (castling both sides), the same FEN with other clocks (a longer full-move number that makes one line a textual prefix of another, full-move number 0, a running half-move clock), two FENs that spell out exactly the position (and clocks) a moves line of the alphabet reaches, two FENs that differ only in the case of one letter, a line repeated with other white space between its tokens, a FEN with move lists that contain promotions (five-character tokens), and ucinewgame; verbatim repeats, shortenings and extensions all arise as words. Every line goes to a real uci.Driver followed by the isready/readyok hand-shake. Oracle after each word: driver alive; Engine.Position(), ply, clock, full moves, draw state equal the reference game of the LAST position command alone; full board snapshot equal to a fresh driver given only that command; every continuation to depth 2 on a fork reports draws exactly where the reference game does (the repetition history is compared, not just the position). distinct_nontrivial = distinct (last command, previous command) pairs", maxLen, len(alphabet))
 	var words [][]string
 	var gen func(w []string)
 	gen = func(w []string) {
@@ -230,6 +244,9 @@ func checkC10(c *harness.Check) {
 			return
 		}
 		for _, a := range alphabet {
+			if len(w)+1 == maxLen && !core[a] {
+				continue // the last position of a full-length word: core lines only
+			}
 			gen(append(w, a))
 		}
 	}
